@@ -8,6 +8,7 @@ import (
 	"go/ast"
 	"go/token"
 	"go/types"
+	"os"
 	"sort"
 	"strconv"
 	"strings"
@@ -658,6 +659,11 @@ func parserCore(c *Ctx) []*ast.FuncDecl {
 		if i := strings.Index(name, "["); i > 0 {
 			reach[name[:i]] = true
 		}
+		for _, ct := range c.Inv().Conts {
+			if strings.HasPrefix(name, "(*"+ct.Named.Obj().Name()+").") {
+				return // a container method (Add, Set): what the parser hands it is decided at the call site; its helpers are not the parser's
+			}
+		}
 		if fn := a.ByName(name); fn != nil {
 			for _, cal := range a.calleeNames(fn) {
 				visit(cal)
@@ -1172,7 +1178,166 @@ func c04ParseFile(c *Ctx) {
 		}
 	}
 	good = good && nOK >= 1 && nErr >= 1
+	if !good {
+		// ParseObject's body spelled out after the read: the same paths as ParseObject's own, with its parameter = string(data)
+		why := c04ParseFileInlined(c, fd, path)
+		if os.Getenv("ANYCHECK_DEBUG") != "" {
+			fmt.Fprintln(os.Stderr, "c04ParseFileInlined:", why)
+		}
+		if why == "" {
+			ob.Ok("data, err := os.ReadFile(path); err => (nil, err); then exactly the paths of ParseObject with its argument = string(data) (ParseObject's body inlined) — the file's bytes unmodified")
+			return
+		}
+	}
 	ob.Check(good, "data, err := os.ReadFile(path); err => (nil, err); return ParseObject(string(data)) — the file's bytes unmodified", "ParseFile is not os.ReadFile followed by ParseObject on the unmodified bytes (text before the root bracket and line numbers would differ)")
+}
+
+// pathSignature: a path as text, with memory epochs erased and function-local variables named by their order of appearance, so that
+// two functions with the same body (up to the names and identities of their locals) give the same signatures.
+func (c *Ctx) pathSignature(p *Path, sub func(Term) (Term, bool), first types.Object) string {
+	names := map[types.Object]string{}
+	if first != nil {
+		names[first] = "L0"
+	}
+	next := 1
+	canon := func(t Term) Term {
+		if sub != nil {
+			t = mapTerm(t, sub)
+		}
+		return mapBU(t, func(u Term) Term {
+			switch x := u.(type) {
+			case TVar:
+				if x.Obj != nil && isLocalVar(x.Obj) {
+					if _, seen := names[x.Obj]; !seen {
+						names[x.Obj] = "L" + itoa(next)
+						next++
+					}
+					return TUnknown{names[x.Obj]}
+				}
+			case TSel:
+				x.Epoch = 0
+				return x
+			case TIndex:
+				x.Epoch = 0
+				return x
+			case TSlice:
+				x.Epoch = 0
+				return x
+			case TCall:
+				x.Epoch = 0
+				return x
+			case TBuiltin:
+				if x.Epoch > 0 {
+					x.Epoch = 0
+				}
+				return x
+			case TDeref:
+				x.Epoch = 0
+				return x
+			}
+			return u
+		})
+	}
+	var sb strings.Builder
+	for _, st := range p.Steps {
+		switch st.Kind {
+		case "cond":
+			sb.WriteString("if[" + boolStr(st.Cond.Truth) + "] " + key(canon(st.Cond.T)) + "; ")
+		case "store":
+			sb.WriteString("store " + key(canon(st.LHS)) + " = " + key(canon(st.RHS)) + "; ")
+		case "call":
+			if st.Call != nil {
+				sb.WriteString("call " + key(canon(*st.Call)) + "; ")
+			} else if st.Blt != nil {
+				sb.WriteString("call " + key(canon(*st.Blt)) + "; ")
+			}
+		default:
+			sb.WriteString(st.Kind + "; ")
+		}
+	}
+	sb.WriteString("=> " + p.End)
+	for _, t := range p.Vals {
+		sb.WriteString(" " + key(canon(t)))
+	}
+	return sb.String()
+}
+
+// c04ParseFileInlined: "" when ParseFile is os.ReadFile(path), (nil, err) on failure, and otherwise path for path what ParseObject does
+// with string(data).
+func c04ParseFileInlined(c *Ctx, fd *ast.FuncDecl, path types.Object) string {
+	po := c.Decl("ParseObject")
+	if po == nil {
+		return "ParseObject not found"
+	}
+	jsonPar := soleParam(c, po)
+	if jsonPar == nil {
+		return "ParseObject does not take one parameter"
+	}
+	want := map[string]int{}
+	for _, p := range c.NewSX().Run(po) {
+		if p.Why != "" {
+			return p.Why
+		}
+		want[c.pathSignature(p, nil, jsonPar)]++ // the parameter is L0
+	}
+	nErr := 0
+	for _, p := range c.NewSX().Run(fd) {
+		if p.Why != "" {
+			return p.Why
+		}
+		// prefix: the read and the decision on its error
+		if len(p.Steps) < 2 || p.Steps[0].Kind != "call" || p.Steps[0].Call == nil || p.Steps[0].Call.Fun == nil || p.Steps[0].Call.Fun.FullName() != "os.ReadFile" ||
+			len(p.Steps[0].Call.Args) != 1 || !isParamTerm(p.Steps[0].Call.Args[0], path) || p.Steps[1].Kind != "cond" {
+			return "ParseFile does not start with os.ReadFile(path) and the test of its error"
+		}
+		read := *p.Steps[0].Call
+		data, rerr := Term(TProj{read, 0}), Term(TProj{read, 1})
+		b, ok := p.Steps[1].Cond.T.(TBin)
+		if !ok || (b.Op != token.EQL && b.Op != token.NEQ) {
+			return "the first decision is not on the read error"
+		}
+		var other Term
+		if sameTerm(b.X, rerr) {
+			other = b.Y
+		} else if sameTerm(b.Y, rerr) {
+			other = b.X
+		}
+		if _, isNil := other.(TNil); !isNil {
+			return "the first decision is not on the read error"
+		}
+		failed := (b.Op == token.NEQ) == p.Steps[1].Cond.Truth
+		if failed {
+			_, nilRes := p.Vals[0].(TNil)
+			if len(p.Steps) != 2 || p.End != "return" || len(p.Vals) != 2 || !nilRes || !sameTerm(p.Vals[1], rerr) {
+				return "a failed read does not return (nil, err) at once"
+			}
+			nErr++
+			continue
+		}
+		rest := *p
+		rest.Steps = p.Steps[2:]
+		text := Term(TConv{To: types.Typ[types.String], X: data})
+		sig := c.pathSignature(&rest, func(t Term) (Term, bool) {
+			if cv, ok := t.(TConv); ok && isStringType(cv.To) && sameTerm(cv.X, data) {
+				return TUnknown{"L0"}, true // string(data) plays the part of ParseObject's parameter
+			}
+			return nil, false
+		}, nil)
+		_ = text
+		if want[sig] == 0 {
+			return "a path after the read is not a path of ParseObject: " + sig
+		}
+		want[sig]--
+	}
+	for sig, n := range want {
+		if n != 0 {
+			return "a path of ParseObject has no counterpart in ParseFile: " + sig
+		}
+	}
+	if nErr == 0 {
+		return "no path for a failed read"
+	}
+	return ""
 }
 
 // ---------------------------------------------------------------- C20
